@@ -52,7 +52,7 @@ class C14(Prop):
             inputs.append(("tab", ins_to_state(self.tabs3[(k * 7 + 1) % len(self.tabs3)]), 0))
             for name, rows, r in (inputs if (thorough and len(ids) < 4) else [inputs[k % 5], inputs[(k + 2) % 5]]):
                 yield {"k": "traj", "ids": ids, "init": name, "rows": rows, "r": r, "seed": self.seed * 31337 + k * 16,
-                       "mode": ("plain", "layers")[k % 2]}
+                       "mode": ("plain", "layers", "early", "early2")[k % 4]}
         # direct MeasureLayer calls
         for j in range(40 if thorough else 12):
             t = self.tabs3[j % len(self.tabs3)]
@@ -118,7 +118,25 @@ class C14(Prop):
         for t in range(3):
             rec = {"op": "traj", "prog": prog, "init": scn["init"], "mode": scn["mode"]}
             try:
-                c, orig, gates = circ.build(be, items, n, "Circuit", scn["mode"] if scn["mode"] != "layers" else "plain", "orig")
+                if scn["mode"] in ("early", "early2"):
+                    # compiled while still unitary (after the gates in front of the first measurement), then extended;
+                    # "early2": compiled once more at the end
+                    cut = next((j for j, it in enumerate(items) if it["k"] == "mz"), len(items))
+                    c, orig, gates = circ.build(be, items[:cut], n, "Circuit", "plain", "orig")
+                    c.compile()
+                    for j in range(cut, len(items)):
+                        it = items[j]
+                        if it["k"] == "mz":
+                            c.measure(*[q - 1 for q in it["qs"]])
+                            gates.append(c.last_layer)
+                        else:
+                            g = circ.make_gate(be, it, n, j)
+                            c.take(g)
+                            gates.append(g)
+                    if scn["mode"] == "early2":
+                        c.compile()
+                else:
+                    c, orig, gates = circ.build(be, items, n, "Circuit", scn["mode"] if scn["mode"] != "layers" else "plain", "orig")
                 if scn["mode"] == "layers":
                     c.compile()
                 rec["layout"] = circ.layout_of(c, orig, gates)
